@@ -154,7 +154,7 @@ Qed.
 (* in particular rules that sign one another in a circle (a <= ... <= a, [sign_walk] on the text) are refused *)
 Theorem C13_checker_rejects_cyclic_signing S m a cyc : static_ok S = true -> schema_wf S = true -> compile S = Ok m ->
   sign_walk S a a cyc -> sanity_check (sanity_fuel m) m = Err ESemantic.
-Proof. exact (checker_rejects_cyclic_signing S m). Qed.
+Proof. exact (fun H1 H2 H3 => checker_rejects_cyclic_signing S m H1 H2 H3 a cyc). Qed.
 Print Assumptions C13_checker_rejects_cyclic_signing.
 Example C13_checker_rejects_cyclic_signing_example :
   static_ok ex_signcycle = true /\ schema_wf ex_signcycle = true /\ compile ex_signcycle = Ok ex_signcycle_model /\ sign_walk ex_signcycle i_a i_a [i_b].
